@@ -17,6 +17,7 @@ import (
 	"math/rand"
 	"net"
 	"os"
+	"strconv"
 	"strings"
 	"time"
 
@@ -93,11 +94,36 @@ func kFrameBytes(fr *kFrame, rng *rand.Rand, pad string) []byte {
 	panic("unknown frame class " + fr.Cls)
 }
 
+// exactOrPadded builds a frame with the given padding; pad "=N" asks for a frame of exactly N bytes including its NUL
+// (frames that carry no padding stay as they are)
+func exactOrPadded(pad string, seed int64, build func(r *rand.Rand, pad string) []byte) []byte {
+	mk := func(pd string) []byte { return build(rand.New(rand.NewSource(seed)), pd) }
+	if !strings.HasPrefix(pad, "=") {
+		return mk(pad)
+	}
+	target, _ := strconv.Atoi(pad[1:])
+	padLen := 0
+	b := mk("")
+	for try := 0; try < 4; try++ {
+		need := target - 1 - len(b)
+		if need == 0 || padLen+need < 0 {
+			break
+		}
+		padLen += need
+		nb := mk(strings.Repeat("y", padLen))
+		if len(nb) == len(b) { // this frame does not carry the padding
+			return b
+		}
+		b = nb
+	}
+	return b
+}
+
 func kSymbols(sc *kScen, rng *rand.Rand, pad string, cut1 int) [][]byte {
 	var syms [][]byte
 	for i := range sc.Frames {
 		fr := &sc.Frames[i]
-		b := kFrameBytes(fr, rng, pad)
+		b := exactOrPadded(pad, rng.Int63(), func(r *rand.Rand, pd string) []byte { return kFrameBytes(fr, r, pd) })
 		if fr.Nb == 2 {
 			p := 1 + rng.Intn(len(b)-1)
 			if i == 0 && cut1 > 0 && cut1 < len(b) {
@@ -175,8 +201,15 @@ func runClientScen(log *tr.Log, sc *kScen, rng *rand.Rand, cut1 int) {
 	}
 	defer a.Close()
 	conn := varlink.VerifNewConnection(a)
-	pads := []int{0, 0, 0, 5, 4090, 4096, 5000, 70000}
-	pad := strings.Repeat("y", pads[rng.Intn(len(pads))])
+	// negative: the whole frame, NUL included, is exactly that long (the client's buffered reader holds 4096 bytes)
+	pads := []int{0, 0, 0, 5, 4090, 4096, 5000, 70000, -4095, -4096, -4097, -8192, -65536}
+	pn := pads[rng.Intn(len(pads))]
+	pad := ""
+	if pn > 0 {
+		pad = strings.Repeat("y", pn)
+	} else if pn < 0 {
+		pad = fmt.Sprintf("=%d", -pn)
+	}
 	if cut1 > 0 {
 		pad = ""
 	}
